@@ -18,6 +18,29 @@ Definition equivalents (c : conv) (u : str) : list str :=
 Definition triples_for (c : conv) (is_pred : bool) (u : str) : list str := if is_pred then equivalents c u else [].
 End Oracle.
 
+(* MappingServiceGraph.triples((s, p, o)), every position a term or None (a variable).  eqv stands for _expand_pair_all; preds are
+   the configured predicates (query_predicates).  The pattern's own predicate is the one the triples carry. *)
+Definition tpat : Type := (option str * option str) * option str.
+Definition triple : Type := (str * str) * str.
+Section Triples.
+Variable eqv : str -> list str.
+Definition triples (preds : list str) (pat : tpat) : list triple :=
+  match pat with
+  | (s, Some p, o) =>
+      if existsb (str_eqb p) preds then
+        match s, o with
+        | None, Some ob => map (fun x => (x, p, ob)) (eqv ob)
+        | Some sb, None => map (fun x => (sb, p, x)) (eqv sb)
+        | _, _ => []
+        end
+      else []
+  | (_, None, _) => []
+  end.
+Definition pos_match (q : option str) (x : str) : bool := match q with None => true | Some y => str_eqb y x end.
+Definition tmatch (pat : tpat) (t : triple) : bool :=
+  match pat, t with (s, p, o), (ts, tp, tob) => pos_match s ts && pos_match p tp && pos_match o tob end.
+End Triples.
+
 (* ---- Accept header ---- *)
 Definition is_ows (c : chr) : bool := N.eqb c 32 || N.eqb c 9.
 Fixpoint lstrip (s : str) : str := match s with c :: t => if is_ows c then lstrip t else s | [] => [] end.
@@ -183,10 +206,20 @@ Definition header_no_ties (h : option str) : bool :=
            per query: what converter.expand_all(converter.compress(uri)) answers on the implementation (None when compress gives None)
            -- the property is stated relative to these two methods]
    obs  = [per query: [answers with ?s bound, VALUES inside; ?s bound, VALUES after; ?o bound inside; ?o bound after] (each sorted);
-           per header: negotiated type; per algebra tree: the tree after the implementation's _optimize_node] *)
+           per header: negotiated type; per algebra tree: the tree after the implementation's _optimize_node;
+           per triple pattern: the triples graph.triples yields, in order] *)
 Record scase := { sc_recs : list record; sc_invalid : str; sc_queries : list (str * bool); sc_headers : list (option str);
                   sc_renderings : list (option (list str));
-                  sc_trees : list alg }.        (* algebra trees of the queries as rdflib translates them, before _optimize_node *)
+                  sc_trees : list alg;          (* algebra trees of the queries as rdflib translates them, before _optimize_node *)
+                  sc_preds : list str;          (* the configured predicates *)
+                  sc_pats : list tpat }.        (* triple patterns handed to graph.triples directly *)
+Definition as_tpat (v : val) : option tpat :=
+  match v with
+  | VList [a; b; c] => match as_opt as_str a, as_opt as_str b, as_opt as_str c with
+                       | Some s, Some p, Some o => Some (s, p, o)
+                       | _, _, _ => None end
+  | _ => None
+  end.
 Definition as_query_entry (v : val) : option (str * bool) :=
   match v with VList [VStr u; VInt b] => Some (u, negb (Z.eqb b 0)) | _ => None end.
 Definition decode_scase (v : val) : option scase :=
@@ -194,10 +227,16 @@ Definition decode_scase (v : val) : option scase :=
   | VList (rs :: VStr inv :: qs :: hs :: rd :: tail) =>
       (* tail: a sixth element (how the harness staged the requests) is not the model's business; a seventh holds the algebra trees *)
       let trees := match tail with _ :: ts :: _ => as_list_of as_alg ts | _ => Some [] end in
-      match as_records rs, as_list_of as_query_entry qs, as_list_of (as_opt as_str) hs, as_list_of (as_opt as_strs) rd, trees with
-      | Some rs', Some qs', Some hs', Some rd', Some ts' =>
-          Some {| sc_recs := rs'; sc_invalid := inv; sc_queries := qs'; sc_headers := hs'; sc_renderings := rd'; sc_trees := ts' |}
-      | _, _, _, _, _ => None end
+      (* an eighth element says which kind of `predicates` argument configured the graph (harness business); a ninth holds the
+         configured predicates and the triple patterns *)
+      let tp := match tail with _ :: _ :: _ :: VList [ps; pats] :: _ =>
+                  match as_strs ps, as_list_of as_tpat pats with Some a, Some b => Some (a, b) | _, _ => None end
+                | _ => Some ([], []) end in
+      match as_records rs, as_list_of as_query_entry qs, as_list_of (as_opt as_str) hs, as_list_of (as_opt as_strs) rd, trees, tp with
+      | Some rs', Some qs', Some hs', Some rd', Some ts', Some (ps', pats') =>
+          Some {| sc_recs := rs'; sc_invalid := inv; sc_queries := qs'; sc_headers := hs'; sc_renderings := rd'; sc_trees := ts';
+                  sc_preds := ps'; sc_pats := pats' |}
+      | _, _, _, _, _, _ => None end
   | _ => None
   end.
 Definition inv_of (k : scase) : chr -> bool := fun c => existsb (N.eqb c) (sc_invalid k).
@@ -210,18 +249,28 @@ Definition spec_equivalents (inv : chr -> bool) (rs : list record) (u : str) : l
 (* the answer the property demands, given what expand_all(compress(u)) answers *)
 Definition rel_answer (inv : chr -> bool) (is_pred : bool) (rendering : option (list str)) : list str :=
   if is_pred then match rendering with Some l => filter (valid_uri inv) l | None => [] end else [].
+(* _expand_pair_all on the URI of one of the case's queries, relative to what expand_all(compress(u)) answers there *)
+Definition eqv_of (k : scase) (u : str) : list str :=
+  match List.find (fun qr : (str * bool) * option (list str) => str_eqb (fst (fst qr)) u) (combine (sc_queries k) (sc_renderings k)) with
+  | Some (_, r) => rel_answer (inv_of k) true r
+  | None => []
+  end.
+Definition vtriple (t : triple) : val := match t with (s, p, o) => VList [VStr s; VStr p; VStr o] end.
 Definition model_sobs (k : scase) : val :=
   VList [VList (map (fun qr : (str * bool) * option (list str) =>
                        let a := vsorted (rel_answer (inv_of k) (snd (fst qr)) (snd qr)) in VList [a; a; a; a])
                     (combine (sc_queries k) (sc_renderings k)));
          VList (map (fun h => vopt VStr (negotiate h)) (sc_headers k));
-         VList (map (fun t => valg (opt t)) (sc_trees k))].
+         VList (map (fun t => valg (opt t)) (sc_trees k));
+         (* what graph.triples(pattern) yields, in order *)
+         VList (map (fun pat => VList (map vtriple (triples (eqv_of k) (sc_preds k) pat))) (sc_pats k))].
 Definition P_C18 (k : scase) (o : val) : bool :=
   match o with
-  | VList [VList qa; VList ha; VList ta] =>
+  | VList [VList qa; VList ha; VList ta; VList _] =>
       Nat.eqb (length qa) (length (sc_queries k)) && Nat.eqb (length ha) (length (sc_headers k)) &&
-      (* the algebra trees after the real _optimize_node are part of "implementation = model" (the model computes opt, which
-         C18_opt_* characterise), not of the property: another rewriting that answers the same would not violate C18 *)
+      (* the algebra trees after the real _optimize_node and the triples that graph.triples yields are part of "implementation =
+         model" (the model computes opt and triples, which C18_opt_* and C18_triples_* characterise), not of the property: another
+         rewriting, or another way of feeding the SPARQL engine, that answers the same would not violate C18 *)
       forallb (fun qa : ((str * bool) * option (list str)) * val => let '(qr, a) := qa in
                  let expected := vsorted (rel_answer (inv_of k) (snd (fst qr)) (snd qr)) in
                  val_eqb a (VList [expected; expected; expected; expected])) (combine (combine (sc_queries k) (sc_renderings k)) qa)
